@@ -10,6 +10,11 @@ extra = """
 
 Additional guidance for this round: assume the crate is already being checked by randomized model-based tests and fuzzers that compare every public result with a reference model, reopen the file after every step, validate the file structure with an independent checker, corrupt every field of valid files, inject I/O faults at every position (with retries), run under short-count/interrupting backends and on multi-megabyte files, and start from unusual-but-valid foreign file layouts. Prefer defects that such machinery would plausibly MISS unless its generators reach a rare state: e.g. depending on exact sizes or counts (a multiple of a sector or table capacity), on a rarely used public method, trait method or option, on a specific error kind, on a combination of two or three conditions, on state left behind by an earlier failed call, or on a long sequence. Avoid the most obvious candidates (off-by-one in a table capacity, a dropped zero-fill, a swapped comparison): look for something less expected. Still: realistic, compiling, existing tests green, and demonstrable by your demo test.
 """
+EXTRA7 = """
+Further hint for this round (from the crate's own source, nothing else): earlier rounds concentrated on Directory, Allocator, resize_stream and the Stream buffer. Look elsewhere too: MiniChain / Chain seek+read+write arithmetic, header read/write and its validation, Sector / SectorInit / Sectors (sector offsets, version 3 vs 4 sector sizes, the 4096-byte V4 header padding), the Entries iterator (walk vs read_storage, depth handling), OpenOptions and builder methods, Drop impls, into_inner, trait methods that have default implementations (read_vectored, read_to_string, read_line, seek_relative, stream_position, write_fmt ...), Entry accessors, files at exactly 109/110 FAT sectors or a DIFAT sector boundary, offsets at 2^31 / 2^32, and differences between what `create` leaves in memory and what `open` rebuilds from the file.
+"""
+if tag >= '7':
+    extra = extra + EXTRA7
 for pid in sys.argv[2:]:
     p = props[pid]
     text = f"Property {pid}: {p['title']}\n\nStatement: {p['statement']}\n\nQuantified over: {p['quantifier']['text']}\n\nCode anchors (files): {', '.join(p['anchors']['files'])}\n"
